@@ -16,6 +16,7 @@ verdict for a manipulated blob, it predicts it, and real NaCl has to agree.
 """
 import hashlib
 import io
+import os
 import random
 from collections import deque
 
@@ -34,6 +35,11 @@ from ..fakes import hx
 
 ID = "C06"
 PROP_MODULES = ["WV.Props.C06"]
+# the queue-capacity theorem needs the translator's `inbound_records_maxlen` flags (tools/extract.py, staged in
+# agents/C06_integration_round6.md); it is part of the check as soon as its module is installed
+if os.path.exists(os.path.join(os.path.dirname(os.path.dirname(os.path.dirname(os.path.abspath(__file__)))),
+                               "lean", "WV", "Props", "C06_Queue.lean")):
+    PROP_MODULES.append("WV.Props.C06_Queue")
 TRUSTED = ["XSalsa20-Poly1305 (NaCl SecretBox): an interface in Lean whose ideal-AEAD properties are hypotheses "
            "(only the honest sealings open); the harness runs real NaCl against the ideal table on every case",
            "HKDF: injective in CTXinfo (hypothesis); the CTXinfo strings themselves are regenerated from /repo",
@@ -209,7 +215,9 @@ class Side:
                 r = deque.pop(self_, *a)
                 side.surf.append(bytes(r))
                 return r
-        self.conn._inbound_records = SpyDeque(self.conn._inbound_records)
+        old = self.conn._inbound_records
+        # same contents and same capacity as the queue the Connection built for itself
+        self.conn._inbound_records = SpyDeque(old, getattr(old, "maxlen", None))
         orig_rr = self.conn.recordReceived
 
         def spy_record_received(record):
@@ -443,6 +451,9 @@ def chunk_stream(stream, spec, frames, rnd):
         if i < len(stream):
             out.append(stream[i:])
         return [c for c in out if c]
+    if isinstance(spec, str) and spec.startswith("every:"):
+        n = int(spec.split(":")[1])
+        return [stream[i:i + n] for i in range(0, len(stream), n)]
     if isinstance(spec, list):      # explicit cut positions
         cuts = sorted({p for p in spec if 0 < p < len(stream)})
         out, prev = [], 0
@@ -577,7 +588,9 @@ def run_case(case):
         exp.append("ok")
     tags.append("dir:" + snd_role + ("-reflect" if reflect else ""))
     tags.append("manip:" + (manip[0] if manip else "none"))
-    tags.append("chunk:" + (case["chunk"] if isinstance(case["chunk"], str) else "cuts"))
+    tags.append("chunk:" + (case["chunk"].split(":")[0] if isinstance(case["chunk"], str) else "cuts"))
+    if case.get("backlog"):
+        tags.append(f"backlog:{case['backlog']}:{len(recs)}")
 
     # ---- feed
     excs = []          # exception names raised by dataReceived, in order
@@ -1025,6 +1038,27 @@ def every_point():
     return out
 
 
+BACKLOG_COUNTS = [1, 2, 1023, 1024, 1025, 1500, 3000]
+
+
+def backlog_cases():
+    """a large backlog of tiny records received before the application reads or attaches a consumer at all, then
+    plain reads (one more than there are records), pipelined re-entrant reads, or writeToFile for all the bytes"""
+    out = []
+    for n in BACKLOG_COUNTS:
+        for d in ("S", "R"):
+            recs = [[1 + (i * 7 + n) % 2, i] for i in range(n)]
+            total = sum(sz for sz, _ in recs)
+            reads = [["r", []] for _ in range(n + 1)]
+            pipelined = [["r", [["r", []]]] for _ in range((n + 1) // 2)] + [["r", []]]
+            for mode, app in (("reads", [["end", ["call", reads]]]),
+                              ("pipelined", [["end", ["call", pipelined]]]),
+                              ("file", [["end", ["call", [["c", total, "file", [["r", []]]]]]]])):
+                out.append(dict(kind="stream", dir=d, recs=recs, chunk="every:997", manip=None,
+                                app=app + [["end", ["lost"]]], loss=["done", "reset", "none"][n % 3], backlog=mode))
+    return out
+
+
 def every_cut():
     """the stream cut at every byte position (record boundary, inside a length prefix, nonce, MAC, ciphertext) and the
     loss reported as FIN / reset / without argument, with a consumer (and reads) outstanding"""
@@ -1051,7 +1085,7 @@ def rng_free_chunk(p):
 
 
 def cases(rng, tier):
-    out = corpus()
+    out = corpus() + backlog_cases()
     n = 1 if tier == "quick" else 25
     for _ in range(140 * n):
         out.append(gen_case(rng, adversarial=False))
@@ -1079,7 +1113,7 @@ def search(rng, seconds, seeds):
     t0 = time.time()
     for c in seeds:
         yield c, run_case(c)
-    for c in corpus() + every_cut() + every_point():
+    for c in corpus() + backlog_cases() + every_cut() + every_point():
         yield c, run_case(c)
         if time.time() - t0 > seconds:
             return
